@@ -477,10 +477,6 @@ func (fd *Client) BatchWriteItem(ctx context.Context, input *dynamodb.BatchWrite
 	fd.mu.Lock()
 	defer fd.mu.Unlock()
 
-	if fd.forceFailureErr != nil {
-		return nil, fd.forceFailureErr
-	}
-
 	if err := validateBatchWriteItemInput(input); err != nil {
 		return &dynamodb.BatchWriteItemOutput{}, err
 	}
